@@ -143,3 +143,27 @@ class Part:
         # another part; runs per shard in the thorough tier
         self.fuzz_of = fuzz_of
         self.fuzz_runs = fuzz_runs
+
+
+def load_output_yaml(text, what):
+    """Parse text written by the code under test as YAML; text that is not
+    YAML, or not the promised list (of numbers / of rows), is a Violation,
+    not a harness error."""
+    import yaml
+    try:
+        doc = yaml.safe_load(text)
+    except yaml.YAMLError as exc:
+        raise Violation('output-not-yaml:' + what, str(exc)[:200]) from exc
+    if not isinstance(doc, list):
+        raise Violation('output-not-a-yaml-sequence:' + what,
+                        repr(doc)[:200])
+    return doc
+
+
+def numbers(seq, what):
+    """A list that must hold plain numbers (the observation vector)."""
+    if not all(isinstance(v, (int, float)) and not isinstance(v, bool)
+               for v in seq):
+        raise Violation('output-vector-not-numeric:' + what,
+                        repr(seq)[:200])
+    return [float(v) for v in seq]
